@@ -100,8 +100,10 @@ CLAIMS = {
         "parser's precedence predicates, the grammar's operator rules and the published table (T2, C05_precedence_tied). Tie of lexer/parser/listener to "
         "the model: correspondence on re-rendered texts (all literal notations, spacing, comments, keyword case, redundant parentheses) with exact snapshot "
         "strings, three-way grouping check on flat operator chains, all-operator grid on pkg.Evaluate*.",
-        note="The round-trip theorem parse(print e) = e for every tree is not proved yet (stated in DESIGN.md as staged); grouping for all texts rests on the "
-        "regenerated precedence facts plus the correspondence. ParseFloat/FormatFloat are modelled (exact rational arithmetic) and validated, not verified. "
+        note="R10 is proved at token level: C05_parse_print (Proofs/ParseGroup, ParseAtoms, ParseDoc) — for every well-formed expression tree of any size the "
+        "parser model returns exactly that tree from its token sequence (operators by prec, left associative; parentheses, negation, calls, members, selectors, "
+        "argument lists), the literal decoder being a parameter (ConstOK; satisfiable: unary_ok). Not proved: the lexer (characters to tokens: spacing, comments, "
+        "keyword case) and the literal notations of realDec (ParseInt/ParseFloat/unquote, exact rational arithmetic in the model) — validated by the correspondence. "
         "Fix 82ab5bc corrected the published table (& binds like + - |).",
         tech="Lean 4 theorems over regenerated operator tables + regenerated syntax facts (decide ties) + differential correspondence of the front end", ref="5.C05"),
  "C17": dict(text="Lean model of the whole front end (Syntax/Lexer: every lexer rule, maximal munch, first rule wins, runtime recovery; Syntax/Parser: the "
@@ -113,7 +115,8 @@ CLAIMS = {
         "documents and their token/character mutations; monitors for the three sentences on the real builder; lexer rule order, token texts, identifier "
         "ranges tied by decide to facts regenerated from antlr/grulev3.g4.",
         note="What runs in /repo is the generated ANTLR lexer/parser (serialized ATN), not the grammar file: their agreement with the model is differential "
-        "validation. Soundness/completeness of the recursive-descent recogniser w.r.t. a declarative derivation relation is not proved. Fixes 3cd0826 (a "
+        "validation. Proved at token level: C17_valid_documents_parse (every sequence of well-formed rules is read back from its tokens as exactly these rules, "
+        "no error; print/parse round trip R10). Not proved: the lexer step, and the converse (what the recogniser accepts derives from the grammar). Fixes 3cd0826 (a "
         "rejected resource adds no rule) and 2e94e10 (salience out of range is an error, not a panic) in /repo.",
         tech="Lean 4 executable front-end model + theorems on the builder's effect + regenerated lexer facts (decide ties) + mutation-based differential correspondence", ref="5.C17"),
  "C18": dict(text="Lean model of pkg/JsonResource.go function by function (Json/Translate: depth-dependent bracketing, noWrap, single-operand not, number "
